@@ -91,6 +91,10 @@ type Sched struct {
 
 var theSched *Sched
 
+// realStderr is the process's standard error as it was at start-up (engines may
+// point os.Stderr elsewhere to capture what golua writes to it).
+var realStderr = os.Stderr
+
 var debugSched = os.Getenv("VSIM_DEBUG_SCHED") != ""
 
 // NewSched returns a scheduler drawing from tape.
@@ -376,7 +380,7 @@ func (s *Sched) fail(kind, msg string) {
 	if s.OnAbort != nil {
 		s.OnAbort(kind, msg)
 	}
-	fmt.Fprintf(os.Stderr, "vsim: scheduler abort: %s: %s\n", kind, msg)
+	fmt.Fprintf(realStderr, "vsim: scheduler abort: %s: %s\n", kind, msg)
 	os.Exit(4)
 }
 
@@ -444,13 +448,13 @@ func schedHook(ev int, target *rt.Thread) {
 	p := unsafe.Pointer(target)
 	if debugSched {
 		g := goid()
-		fmt.Fprintf(os.Stderr, "hook ev=%d target=%p cur=%d steps=%d g%d\n", ev, target, s.cur, s.Steps, g)
+		fmt.Fprintf(realStderr, "hook ev=%d target=%p cur=%d steps=%d g%d\n", ev, target, s.cur, s.Steps, g)
 		if ev != rt.VerifEvStart && ev != rt.VerifEvAfterRecv {
 			c := &s.tasks[s.cur]
 			if c.gid == 0 {
 				c.gid = g
 			} else if c.gid != g {
-				fmt.Fprintf(os.Stderr, "SCHED BUG: hook ev=%d called by goroutine %d but the baton holder task%d is goroutine %d\n", ev, g, s.cur, c.gid)
+				fmt.Fprintf(realStderr, "SCHED BUG: hook ev=%d called by goroutine %d but the baton holder task%d is goroutine %d\n", ev, g, s.cur, c.gid)
 				os.Exit(5)
 			}
 		}
